@@ -82,11 +82,45 @@ def run(pid, tier, families, t0, extra_assume=(), level="model_checking", strict
         if only and name not in only.split(","):
             continue
         P.write_cfg(gd, name, over)
-        cases = []
+        buf = []
+        ncases = [0]
+
+        def flush():
+            """replay the buffered cases (bounded memory: TLC simply waits on its pipe meanwhile)"""
+            cases, buf[:] = list(buf), []
+            if not cases:
+                return
+            res = C.proc_map(hp, (worker_for or {}).get(name) or worker or work, cases, chunk=300)
+            for c, x in zip(cases, res):
+                stats["cases"] += 1
+                if c["expect"]["k"] in ("ok", "fail") and len(okprogs) < 6000 and stats["cases"] % 5 == 0:
+                    okprogs.append(c["prog"])
+                st = x["status"]
+                if st == "toolerr":
+                    raise C.ToolError("renderer/parser mismatch: %r" % (x,))
+                stats[st] = stats.get(st, 0) + 1
+                if st == "known":
+                    for d in c["devs"]:
+                        rep.disagree({"family": name, "text": x.get("text"), "detail": x.get("detail"),
+                                      "prog": c["prog"]}, key="dev:" + d)
+                if st == "violation":
+                    rep.disagree({"family": name, "text": x.get("text"), "detail": x.get("detail"),
+                                  "kind": x.get("kind"), "prog": c["prog"]}, key=x.get("key"))
+                if st in ("ok", "known") and len(c["ops"]) >= 6:
+                    nontriv.add(hash(x.get("text")))
+                if st == "ok" and len(samples) < 6 and len(c["ops"]) >= 8 and (stats["cases"] % 97 == 1):
+                    samples.append({"family": name, "text": x["text"], "expect": P._show_spec(c["expect"])})
+
+        def on_case(c):
+            buf.append(c)
+            ncases[0] += 1
+            if len(buf) >= 20000:
+                flush()
+
         r = C.run_tlc(mod, name, workers=8, gendir=gd, timeout=900 if tier == "quick" else 5400, heap="12g",
                       simulate=sim[0] if sim else None, depth=sim[1] if sim else None,
                       max_replays=(sim[0] * 6 if sim else None),     # a simulation is stopped once it has given enough
-                      on_replay=cases.append)
+                      on_replay=on_case)
         cmds.append(r.cmd)
         if r.violation:
             from . import render as R
@@ -102,27 +136,8 @@ def run(pid, tier, families, t0, extra_assume=(), level="model_checking", strict
         C.require_tlc_ok(r, name)
         states += r.distinct or r.generated
         trans += r.generated
-        C.log("[%s] %s: %d states, %d cases, %.0fs" % (pid, name, r.distinct or r.generated, len(cases), r.wall))
-        res = C.proc_map(hp, (worker_for or {}).get(name) or worker or work, cases, chunk=300)
-        for c, x in zip(cases, res):
-            stats["cases"] += 1
-            if c["expect"]["k"] in ("ok", "fail") and len(okprogs) < 6000 and stats["cases"] % 5 == 0:
-                okprogs.append(c["prog"])
-            st = x["status"]
-            if st == "toolerr":
-                raise C.ToolError("renderer/parser mismatch: %r" % (x,))
-            stats[st] = stats.get(st, 0) + 1
-            if st == "known":
-                for d in c["devs"]:
-                    rep.disagree({"family": name, "text": x.get("text"), "detail": x.get("detail"),
-                                  "prog": c["prog"]}, key="dev:" + d)
-            if st == "violation":
-                rep.disagree({"family": name, "text": x.get("text"), "detail": x.get("detail"), "kind": x.get("kind"),
-                              "prog": c["prog"]}, key=x.get("key"))
-            if st in ("ok", "known") and len(c["ops"]) >= 6:
-                nontriv.add(x.get("text"))
-            if st == "ok" and len(samples) < 6 and len(c["ops"]) >= 8 and (stats["cases"] % 97 == 1):
-                samples.append({"family": name, "text": x["text"], "expect": P._show_spec(c["expect"])})
+        C.log("[%s] %s: %d states, %d cases, %.0fs" % (pid, name, r.distinct or r.generated, ncases[0], r.wall))
+        flush()
     if after:
         try:
             after(rep, stats, okprogs)
